@@ -7,6 +7,7 @@ import (
 	"context"
 	"fmt"
 	"strings"
+	"time"
 
 	bp "ebuverif/internal/busprog"
 	"ebuverif/internal/evt"
@@ -28,6 +29,16 @@ type shape struct {
 	// to itself on another goroutine); 2 = it publishes an event of a second type whose
 	// asynchronous context-aware handler publishes an event back to the sequential handler
 	republish int
+	// cancelFirst: each publisher's first event is published with an already-cancelled
+	// context (it must not be delivered, and must not disturb the events after it)
+	cancelFirst bool
+	// gate: the handler blocks in its very first invocation until the publisher, having
+	// published everything and slept (virtual time: everything else is parked by then),
+	// opens a gate - so all later events queue up behind a running invocation
+	gate bool
+	// replayRace: the handler is subscribed with SubscribeWithReplay(Sequential()) over a
+	// store that already holds two events, while another task publishes
+	replayRace bool
 }
 
 type inst struct {
@@ -39,8 +50,14 @@ type inst struct {
 func (in *inst) Body() {
 	s := in.s
 	evt.Deliver = func(ti, slot, id int, ctx context.Context) {}
+	if s.replayRace {
+		in.bodyReplayRace()
+		return
+	}
 	bus := eventbus.New()
 	A := bp.Types[0]
+	gate := make(chan struct{})
+	gated := false
 	B := bp.Types[1]
 	pubWith := func(t *evt.TypeOps, hctx context.Context, id int) {
 		if hctx == nil {
@@ -51,6 +68,10 @@ func (in *inst) Body() {
 	mk := func(hid int) func(context.Context, int) {
 		return func(hctx context.Context, id int) {
 			in.rec.Add("enter", hid, id, "")
+			if s.gate && hid == 0 && !gated {
+				gated = true
+				vrt.Recv(gate)
+			}
 			if hid == 0 && id%100 == 0 && id < 900 {
 				switch s.republish {
 				case 1:
@@ -76,14 +97,48 @@ func (in *inst) Body() {
 	for t, n := range s.pubs {
 		t, n := t, n
 		vrt.Go(func() {
+			if s.cancelFirst {
+				cctx, cancel := context.WithCancel(context.Background())
+				cancel()
+				A.PubCtx(bus, cctx, 100*(t+1)+99)
+			}
 			for i := 0; i < n; i++ {
 				id := 100*(t+1) + i
 				in.rec.Add("call", id, 0, "")
 				A.Pub(bus, id)
 				in.rec.Add("ret", id, 0, "")
 			}
+			if s.gate {
+				vrt.Sleep(time.Millisecond)
+				vrt.Close(gate)
+			}
 		})
 	}
+	vrt.Join()
+	bus.Wait()
+}
+
+// bodyReplayRace: SubscribeWithReplay(Sequential()) replaying two stored events while a
+// second task publishes; the handler (a slot function) has a scheduling point inside.
+func (in *inst) bodyReplayRace() {
+	A := bp.Types[0]
+	evt.Deliver = func(ti, slot, id int, ctx context.Context) {
+		in.rec.Add("enter", 0, id, "")
+		vrt.Point()
+		in.rec.Add("exit", 0, id, "")
+	}
+	ms := eventbus.NewMemoryStore()
+	pre := eventbus.New(eventbus.WithStore(ms))
+	A.Pub(pre, 1)
+	A.Pub(pre, 2)
+	bus := eventbus.New(eventbus.WithStore(ms))
+	vrt.Go(func() {
+		A.SubReplay(context.Background(), bus, "sub", 0, evt.SubOpts{Sequential: true, Async: in.s.async})
+	})
+	vrt.Go(func() {
+		A.Pub(bus, 100)
+		A.Pub(bus, 101)
+	})
 	vrt.Join()
 	bus.Wait()
 }
@@ -141,6 +196,14 @@ func (in *inst) Check(res *vrt.Result) []vrt.Violation {
 		cnt := map[int]int{}
 		for _, id := range seen {
 			cnt[id]++
+		}
+		if in.s.replayRace {
+			continue // only the overlap clause is judged here (delivery across replay/live is C12's subject)
+		}
+		for t := range in.s.pubs {
+			if in.s.cancelFirst && cnt[100*(t+1)+99] != 0 {
+				bad("delivery-count", fmt.Sprintf("%s sequential handler received an event published with an already-cancelled context", kindOf(in.s)), "")
+			}
 		}
 		var extra []int
 		for t, n := range in.s.pubs {
@@ -207,6 +270,11 @@ func shapes(thorough bool) []shape {
 		{name: "async/one-publisher-2", async: true, pubs: []int{2}},
 		{name: "async/two-publishers", async: true, pubs: []int{2, 1}},
 		{name: "async-ctx/one-publisher-2+plain", async: true, ctx: true, plain: true, pubs: []int{2}},
+		{name: "async/cancelled-then-live", async: true, cancelFirst: true, pubs: []int{2}},
+		{name: "async/cancelled-then-live-2publishers", async: true, cancelFirst: true, pubs: []int{1, 1}},
+		{name: "sync/cancelled-then-live", cancelFirst: true, pubs: []int{2}},
+		{name: "replay-race/sequential-subscribe-with-replay", replayRace: true, pubs: []int{0}},
+		{name: "replay-race/async-sequential-subscribe-with-replay", replayRace: true, async: true, pubs: []int{0}},
 		{name: "async-ctx/self-republish", async: true, ctx: true, republish: 1, pubs: []int{1}},
 		{name: "async/self-republish-2publishers", async: true, republish: 1, pubs: []int{1, 1}},
 		{name: "sync-ctx/cascade-through-async-handler", ctx: true, republish: 2, pubs: []int{1}},
@@ -227,7 +295,18 @@ func scenario(s shape) vrt.Scenario {
 	return vrt.Scenario{Name: s.name, New: func() vrt.Instance { return &inst{s: s} }}
 }
 
+// deep single-schedule scenarios: many events queued behind one running invocation
+func deepShapes() []shape {
+	return []shape{
+		{name: "async/70-queued-behind-a-blocked-invocation", async: true, gate: true, pubs: []int{70}},
+		{name: "async/130-queued-behind-a-blocked-invocation", async: true, gate: true, pubs: []int{99}},
+	}
+}
+
 func run(c *h.Check) {
+	for _, s := range deepShapes() {
+		c.ExploreOne(scenario(s)) // one schedule each: the queue is built by virtual time, not by preemptions
+	}
 	for _, s := range shapes(c.Thorough()) {
 		if c.TimeUp() {
 			return
@@ -246,7 +325,7 @@ func run(c *h.Check) {
 }
 
 func replay(c *h.Check, rf *h.ReplayFile) []vrt.Violation {
-	for _, s := range shapes(true) {
+	for _, s := range append(shapes(true), deepShapes()...) {
 		if s.name == rf.Scenario || s.name+"/unbounded-pruned" == rf.Scenario {
 			return h.ReplaySchedule(scenario(s), rf)
 		}
